@@ -4,8 +4,8 @@
 # then every thorough tier once.  Each part prints its own summary line.
 cd "$(dirname "$0")/.."
 seed=${1:-7}
-echo "== benign (specificity)"; /venv/bin/python selftest/run_mutants.py --benign 2>&1 | grep -E "^(SILENT|FALSE-ALARM|ERROR|    )" 
+echo "== benign (specificity)"; /venv/bin/python selftest/run_mutants.py --benign 2>&1 | grep --line-buffered -E "^(SILENT|FALSE-ALARM|ERROR|    )" 
 echo "== determinism"; /venv/bin/python selftest/determinism.py --runs 340 2>&1 | grep -vE "WARNING" | tail -60
-echo "== sensitivity"; /venv/bin/python selftest/run_mutants.py --seeded --skip-suite 2>&1 | grep -E "^(DETECTED|MISSED|ERROR)"
+echo "== sensitivity"; /venv/bin/python selftest/run_mutants.py --seeded --skip-suite 2>&1 | grep --line-buffered -E "^(DETECTED|MISSED|ERROR)"
 echo "== thorough tiers (seed $seed)"; bash selftest/thorough_all.sh $seed
 echo VALIDATE-ALL DONE
